@@ -61,7 +61,10 @@ pub fn parse(bytes: &[u8]) -> Result<Resp, Problem> {
     let version = it.next().unwrap_or("");
     let code = it.next().unwrap_or("");
     let reason = it.next();
-    if version != "HTTP/1.1" { return Err(p("status-line-version", format!("status line {:?}", sl))); }
+    // HTTP-version = "HTTP/" DIGIT "." DIGIT, case-sensitive (RFC 7230 2.6). The statement asks for a well-formed status line, not for one
+    // particular version: a server that answers an HTTP/1.0 client in HTTP/1.0 is within it, one that echoes "http/1.1" is not
+    let vb = version.as_bytes();
+    if !(vb.len() == 8 && &vb[..5] == b"HTTP/" && vb[5].is_ascii_digit() && vb[6] == b'.' && vb[7].is_ascii_digit()) { return Err(p("status-line-version", format!("status line {:?}", sl))); }
     if code.len() != 3 || !code.bytes().all(|b| b.is_ascii_digit()) { return Err(p("status-line-code", format!("status line {:?}", sl))); }
     let reason = match reason { Some(r) => r.to_string(), None => return Err(p("status-line-no-reason", format!("status line {:?}", sl))) };
     let status: u16 = code.parse().unwrap();
@@ -91,7 +94,7 @@ impl Resp {
 
 pub const FRAMING: [&str; 4] = ["Content-Length", "Content-Type", "Content-Range", "Transfer-Encoding"];
 
-/// Names rws can emit (its vocabulary). A header line with any other name was created by reflected client text.
+/// Names rws is known to emit. A header line with another name is a note; it is a violation of C05 only if the client supplied its text.
 pub const SERVER_VOCABULARY: [&str; 22] = [
     "Access-Control-Allow-Origin", "Access-Control-Allow-Credentials", "Access-Control-Allow-Methods", "Access-Control-Allow-Headers",
     "Access-Control-Expose-Headers", "Access-Control-Max-Age", "Accept-CH", "Critical-CH", "Vary", "X-Content-Type-Options", "Accept-Ranges",
@@ -110,7 +113,9 @@ pub fn wellformed(r: &Resp, no_body_by_method: bool) -> (Vec<Problem>, Vec<&'sta
     }
     for (n, v) in &r.headers {
         if !is_token(n) { problems.push(p("header-name-not-a-token", format!("header name {:?}", n))); }
-        if !SERVER_VOCABULARY.iter().any(|k| k.eq_ignore_ascii_case(n)) { problems.push(p("header-name-outside-server-vocabulary", format!("header line {:?}: {:?}", n, v))); }
+        // a name rws is not known to emit is no defect in itself (a new header may be added any day); C05 turns it into one only when the line's text
+        // was supplied by the client (see c05::eval_response)
+        if !SERVER_VOCABULARY.iter().any(|k| k.eq_ignore_ascii_case(n)) { notes.push("header-name-outside-known-vocabulary"); }
         if v.bytes().any(|b| b < 0x20 && b != b'\t' || b == 0x7f) { notes.push("control-character-in-header-value"); }
     }
     for f in FRAMING {
